@@ -1,9 +1,14 @@
 #!/bin/bash
-# setup_cmd: make sure hypothesis is importable in /venv (offline, idempotent)
+# setup_cmd: make sure hypothesis is importable in /venv and atheris in /verif/.deps (offline, idempotent)
 set -e
 cd "$(dirname "$0")"
 if ! /venv/bin/python -c "import hypothesis" 2>/dev/null; then
   PIP_NO_INDEX=1 /venv/bin/pip install --no-index --find-links /opt/veriftools/wheels hypothesis
 fi
+if ! PYTHONPATH=.deps /venv/bin/python -c "import atheris" 2>/dev/null; then
+  PIP_NO_INDEX=1 /venv/bin/pip install --no-index --find-links /opt/veriftools/wheels --target .deps atheris \
+    || echo "NOTE: atheris could not be installed; the coverage-guided shards will be skipped"
+fi
 /venv/bin/python -c "import hypothesis, numpy, scipy, pandas, sympy, mpmath; print('hypothesis', hypothesis.__version__)"
+PYTHONPATH=.deps /venv/bin/python -c "import atheris; print('atheris ok')" || true
 mkdir -p out/tmp evidence
